@@ -76,7 +76,7 @@ def cmd_verify(sid):
     return 0 if out["valid"] else 1
 
 
-def cmd_check(sid, props, tier):
+def cmd_check(sid, props, tier, seed=None):
     dst = os.path.join(VERIF, "seeded", sid)
     vp = os.path.join(dst, "verif.json")
     v = json.load(open(vp)) if os.path.exists(vp) else {}
@@ -86,7 +86,8 @@ def cmd_check(sid, props, tier):
     try:
         env = dict(os.environ, PAMS_REPO=repo, PAMS_EVIDENCE_DIR=os.path.join(d, "ev"), PAMS_REPLAY_DIR=os.path.join(d, "rp"))
         for p in props:
-            r = subprocess.run([os.path.join(VERIF, "check"), p, "--tier", tier], cwd=VERIF, env=env, capture_output=True, text=True)
+            r = subprocess.run([os.path.join(VERIF, "check"), p, "--tier", tier] + (["--seed", str(seed)] if seed is not None else []),
+                               cwd=VERIF, env=env, capture_output=True, text=True)
             mech = [l.split("mechanism=")[-1] for l in r.stdout.splitlines() if l.startswith("violated ")]
             res[p] = {0: "MISSED", 1: "caught", 2: "inconclusive"}.get(r.returncode, "rc=%d" % r.returncode) + \
                 (" [" + "; ".join(mech[:3]) + "]" if mech else "")
@@ -94,8 +95,12 @@ def cmd_check(sid, props, tier):
                 res[p] += " " + r.stdout.strip()[-300:].replace("\n", " | ")
     finally:
         shutil.rmtree(d, ignore_errors=True)
-    v.setdefault("checks", {}).update({"%s/%s" % (p, tier): r for p, r in res.items()})
-    json.dump(v, open(vp, "w"), indent=1)
+    if seed is None:
+        v.setdefault("checks", {}).update({"%s/%s" % (p, tier): r for p, r in res.items()})
+        json.dump(v, open(vp, "w"), indent=1)
+    else:
+        v.setdefault("other_seeds", {}).update({"%s/%s/seed%s" % (p, tier, seed): r.split(" [")[0] for p, r in res.items()})
+        json.dump(v, open(vp, "w"), indent=1)
     print(sid, json.dumps(res))
 
 
@@ -111,7 +116,12 @@ def main():
             i = a.index("--tier")
             tier = a[i + 1]
             del a[i:i + 2]
-        return cmd_check(a[1], a[2:], tier)
+        seed = None
+        if "--seed" in a:
+            i = a.index("--seed")
+            seed = int(a[i + 1])
+            del a[i:i + 2]
+        return cmd_check(a[1], a[2:], tier, seed)
 
 
 if __name__ == "__main__":
